@@ -393,12 +393,13 @@ func shrinkOutOfProcess(m *propMeta, v *Violation, budget int) *Violation {
 	}
 	par := workers
 	improved := true
-	for improved && calls < budget {
+	deadline := time.Now().Add(150 * time.Second)
+	for improved && calls < budget && time.Now().Before(deadline) {
 		improved = false
 		// delete blocks
 		for size := len(cur) / 2; size >= 1 && calls < budget; size /= 2 {
 			i := 0
-			for i+size <= len(cur) && calls < budget {
+			for i+size <= len(cur) && calls < budget && time.Now().Before(deadline) {
 				var cands [][]uint64
 				var offs []int
 				for j := i; j+size <= len(cur) && len(cands) < par; j += size {
@@ -415,7 +416,7 @@ func shrinkOutOfProcess(m *propMeta, v *Violation, budget int) *Violation {
 			}
 		}
 		// zero / halve values
-		for i := 0; i < len(cur) && calls < budget; {
+		for i := 0; i < len(cur) && calls < budget && time.Now().Before(deadline); {
 			var cands [][]uint64
 			var idx []int
 			for j := i; j < len(cur) && len(cands) < par; j++ {
@@ -669,6 +670,8 @@ func main() {
 				// the in-process shrinker died on a candidate (or lost the class): one process per candidate
 				small = shrinkOutOfProcess(m, viol, 400)
 			}
+		} else if strings.HasSuffix(viol.Class, "/hang") {
+			small = viol // every candidate would cost a watchdog period: a hang is reported unshrunk
 		} else {
 			small = shrinkOutOfProcess(m, viol, 400)
 		}
@@ -706,6 +709,14 @@ func main() {
 			attempts = 8
 		}
 		ok, lastDetail := confirm(replayPath, small.Class, attempts)
+		if ok < 2 && small.Pin != "" {
+			// the failing case may depend on what earlier cases of the same run left behind in the process:
+			// replay the whole run instead of the pinned case only
+			fmt.Fprintf(os.Stderr, "sup: pinned case reproduced %d times; replaying the whole run\n", ok)
+			small.Pin = ""
+			writeJSON(replayPath, small)
+			ok, lastDetail = confirm(replayPath, small.Class, attempts)
+		}
 		if ok < 2 && small.Shrunk && len(viol.Trace) > 0 {
 			// the minimised trace does not replay reliably: fall back to the original run
 			fmt.Fprintf(os.Stderr, "sup: minimised trace reproduced %d times; falling back to the unshrunk run\n", ok)
@@ -715,6 +726,11 @@ func main() {
 			writeJSON(replayPath, &orig)
 			small = &orig
 			ok, lastDetail = confirm(replayPath, small.Class, attempts)
+			if ok < 2 && small.Pin != "" {
+				small.Pin = ""
+				writeJSON(replayPath, small)
+				ok, lastDetail = confirm(replayPath, small.Class, attempts)
+			}
 		}
 		switch {
 		case ok >= 2 || (isRace && ok >= 1):
